@@ -209,6 +209,8 @@ def run(ctx):
                 w = np.array([[b2f(x) for x in l.split()] for l in mo])
                 if not np.allclose(s, w, atol=1e-8):
                     ctx.alarm('correspondence', 'sphere_sample differs from the model (%s)' % rec)
+    from .gensamplers import check_generated_samplers
+    check_generated_samplers(ctx)          # the definitions regenerated from the source (Generated/Samplers.lean) vs the real functions
 
 
 def replay(ctx, rep):
